@@ -25,7 +25,8 @@ RULE = ('Clause 1: Hypothesis files (type 0/1/2, ticks_per_beat 1..32767, 0-4 tr
         'that loads and whose re-saved bytes differ from it. Distinct by hash of the case.'
         ' Later additions: MidiTrack conveniences (+, *, slices, copy) as construction route, save/load by'
         ' (relative) file name over a stale longer file, files in another charset (constructor argument or'
-        ' assignment), track chunks > 1 MiB, volume files, saving leaves the in-memory file unchanged.')
+        ' assignment), track chunks > 1 MiB, volume files, saving leaves the in-memory file unchanged; the same events'
+        ' saved under another charset earlier in the process; a saved file loads the same with clip=True.')
 ASSUMPTIONS = ['smpte_offset hours are generated in 0..31 (KF-C09-c is recorded under C09)',
                'sequencer_specific data is given as a tuple (KF-C09-d is recorded under C09)',
                'a load that raises (any exception type) makes no claim']
